@@ -399,3 +399,21 @@ mod tests {
         assert_eq!(config.handle_new_channel(VALID_INDEX, VALID_FREQ, dr), (true, true));
     }
 }
+
+#[cfg(lora_rs_verif)]
+impl<R: DynamicChannelRegion> DynamicChannelPlan<R> {
+    pub(crate) fn verif_snapshot(&self) -> crate::region::verif::RegionSnapshot {
+        let mut mask = [0u8; 9];
+        mask.copy_from_slice(self.channel_mask.as_ref());
+        crate::region::verif::RegionSnapshot::Dynamic {
+            channels: core::array::from_fn(|i| {
+                self.channels[i].map(|c| crate::region::verif::ChannelSnapshot {
+                    frequency: c.frequency,
+                    datarates: c._datarates.raw_value(),
+                    dl_frequency: c.dl_frequency,
+                })
+            }),
+            mask,
+        }
+    }
+}
